@@ -728,6 +728,16 @@ Proof.
   split; intros H t Ht; apply checker_characterisation_proof; now apply H.
 Qed.
 
+Lemma port_characterisation_proof b stray :
+  C14_check_port b stray = true <->
+  stray = [] /\
+  Forall (fun t => fits (fst (fst t)) /\ snd (fst t) = record_msg (fst (fst t)) /\
+                   snd t = summary_msg (fst (fst t))) b.
+Proof.
+  unfold C14_check_port. rewrite andb_true_iff, batch_characterisation_proof.
+  destruct stray; split; intros (A & B); try discriminate; auto.
+Qed.
+
 (* the frame index read as an UNSIGNED 64-bit value (how the Go comments describe the field) is the
    record's frame whenever that is non-negative, i.e. always in practice *)
 Lemma frame_unsigned_proof r : 0 <= r_frame r < 2 ^ 63 ->
